@@ -2,4 +2,4 @@ SPECIFICATION Spec
 CHECK_DEADLOCK FALSE
 INVARIANT LinearOrderShared
 INVARIANT HolesKeepSlots
-CONSTANT Big = FALSE
+CONSTANT Big = TRUE
